@@ -270,6 +270,82 @@ theorem cpLoad_cpSave (objs : List (Bytes × Bytes)) (h : (cpCollect objs).lengt
   simp only [cpLoad, cpSave, h1, h2, leNat_leBytes 8 _ h, List.take_length, resize, Nat.sub_self,
     List.replicate_zero, List.append_nil]
 
+/-! ### duplicate and missing identifiers are reported -/
+
+theorem lookup_none (k : Bytes) : ∀ (recs : List (Bytes × Bytes)) (p : Nat), k ∉ keys recs →
+    lookup k (cpIndexSpec p recs) = none
+  | [], _, _ => rfl
+  | (k0, v0) :: rest, p, h => by
+    rw [keys_cons, List.mem_cons] at h
+    have h1 : ¬ k = k0 := fun e => h (Or.inl e)
+    simp only [cpIndexSpec, lookup, h1, if_false]
+    exact lookup_none k rest _ (fun e => h (Or.inr e))
+
+/-- an identifier that is not in the checkpoint is not found (`restore_object` asserts) -/
+theorem cpRestore_missing (recs : List (Bytes × Bytes)) (hwf : RecWF recs) (k : Bytes) (hk : k ∉ keys recs) :
+    cpRestore (cpCollectSorted recs) k = none := by
+  have hi := cpIndex_collect recs [] (cpCollectSorted recs).length (length_collect_ge recs) hwf
+  simp only [List.nil_append, List.length_nil] at hi
+  rw [cpRestore_eq, hi, lookup_none k recs 0 hk]
+
+theorem contains_keys (m : List (Bytes × Bytes)) (k : Bytes) : (m.map (·.1)).contains k = true ↔ k ∈ keys m := by
+  rw [List.contains_iff_mem]
+  rfl
+
+/-- registering objects with pairwise distinct identifiers succeeds and yields the sorted map -/
+theorem cpRegisterAll_distinct : ∀ (objs m : List (Bytes × Bytes)), (keys m ++ keys objs).Nodup →
+    cpRegisterAll m objs = some (objs.foldl (fun m kv => mapInsert kv.1 kv.2 m) m)
+  | [], _, _ => rfl
+  | (k, v) :: rest, m, h => by
+    have h' := List.nodup_append.mp h
+    have hkm : k ∉ keys m := fun hc => h'.2.2 k hc k (by simp [keys]) rfl
+    have hrest : k ∉ keys rest ∧ (keys rest).Nodup := by
+      have := h'.2.1
+      rw [keys_cons, List.nodup_cons] at this
+      exact this
+    have hnew : (keys (mapInsert k v m) ++ keys rest).Nodup := by
+      rw [List.nodup_append]
+      refine ⟨nodup_keys_mapInsert k v m hkm h'.1, hrest.2, ?_⟩
+      intro a ha b hb hab
+      rw [mem_keys_mapInsert] at ha
+      rcases ha with ha | ha
+      · exact hrest.1 (ha ▸ hab ▸ hb)
+      · exact h'.2.2 a ha b (by rw [keys_cons]; exact List.mem_cons_of_mem _ hb) hab
+    have hc : (m.map (·.1)).contains k = false := by
+      cases hcc : (m.map (·.1)).contains k with
+      | false => rfl
+      | true => exact absurd ((contains_keys m k).mp hcc) hkm
+    simp only [cpRegisterAll, cpRegister, hc, Bool.false_eq_true, if_false, List.foldl_cons]
+    exact cpRegisterAll_distinct rest (mapInsert k v m) hnew
+
+/-- a repeated identifier is rejected (the `XASSERTM` of `add_object`): never silently overwritten -/
+theorem cpRegisterAll_duplicate : ∀ (objs m : List (Bytes × Bytes)), (keys m).Nodup →
+    ¬ (keys m ++ keys objs).Nodup → cpRegisterAll m objs = none
+  | [], m, hm, h => by
+    exact absurd (by simpa [keys] using hm) h
+  | (k, v) :: rest, m, hm, h => by
+    by_cases hkm : k ∈ keys m
+    · have hc : (m.map (·.1)).contains k = true := (contains_keys m k).mpr hkm
+      simp only [cpRegisterAll, cpRegister, hc, if_true]
+    · have hc : (m.map (·.1)).contains k = false := by
+        cases hcc : (m.map (·.1)).contains k with
+        | false => rfl
+        | true => exact absurd ((contains_keys m k).mp hcc) hkm
+      simp only [cpRegisterAll, cpRegister, hc, Bool.false_eq_true, if_false]
+      apply cpRegisterAll_duplicate rest (mapInsert k v m) (nodup_keys_mapInsert k v m hkm hm)
+      intro hn
+      apply h
+      have hn' := List.nodup_append.mp hn
+      rw [List.nodup_append]
+      refine ⟨hm, ?_, ?_⟩
+      · rw [keys_cons, List.nodup_cons]
+        refine ⟨fun hk => hn'.2.2 k ((mem_keys_mapInsert k v m k).mpr (Or.inl rfl)) k hk rfl, hn'.2.1⟩
+      · intro a ha b hb hab
+        rw [keys_cons] at hb
+        rcases List.mem_cons.mp hb with hb | hb
+        · exact hkm (hb ▸ hab ▸ ha)
+        · exact hn'.2.2 a ((mem_keys_mapInsert k v m a).mpr (Or.inr ha)) b hb hab
+
 /-! ### `DistFileIO::write_combined / read_combined`, one process -/
 
 def dfHdr (s b : Bytes) : List Nat := [dfMagic, 40 + b.length + s.length, 1, s.length, b.length]
